@@ -227,6 +227,10 @@ Definition proved_ops (aof : bool) : list so_op := if aof then [ORecreate; ORese
 
 Definition all_effs (l : list gstmt) : list string := flat_map (fun x : gstmt => snd x) l.
 
+(* is c called by a statement that no condition encloses? *)
+Definition calls_unguarded (c : string) (l : list gstmt) : bool :=
+  existsb (fun x : gstmt => match fst (fst x) with [] => mem_str c (snd x) | _ => false end) l.
+
 Close Scope string_scope.
 
 (* ================= Part 2: attempts of several follow generations ================= *)
